@@ -21,6 +21,21 @@ def record(chk, name, kind, seed, steps=150, shards=2, metric="iou", max_idle=2,
     cmd = [str(vlib.VH), "record", "r2", "--kind", kind, "--shards", str(shards), "--max-idle", str(max_idle), "--metric", metric,
            "--seed", str(seed), "--steps", str(steps), "--objects", str(objects), "--spread", str(spread), "--scenes", scenes,
            "--history", str(history), "--out", str(out)] + list(extra)
+    # options the trace specifications do not care about (they read thresholds and limits from the configuration line, the
+    # weights are measured with the configured filter) vary with the seed unless the caller fixed them: history length,
+    # IoU threshold, confidence floor, Kalman weights, number of voting threads
+    given = set(x for x in map(str, extra) if x.startswith("--"))
+    pick = lambda salt, choices: choices[(seed * 2654435761 + salt * 40503) % 4294967296 % len(choices)]
+    if history == 2 and "--history" not in given:
+        cmd[cmd.index("--history") + 1] = str(pick(1, (1, 2, 2, 3, 4)))
+    if metric == "iou" and "--thr" not in given:
+        cmd += ["--thr", str(pick(2, (0.3, 0.3, 0.2, 0.45)))]
+    if "--min-conf" not in given:
+        cmd += ["--min-conf", str(pick(3, (0.05, 0.05, 0.3)))]
+    if "--pos-w" not in given and pick(4, (0, 0, 1)) == 1:
+        cmd += ["--pos-w", "0.1", "--vel-w", "0.0125"]
+    if "--voters" not in given:
+        cmd += ["--voters", str(pick(5, (1, 2, 2, 3)))]
     if crafted:
         cmd += ["--crafted", "1"]
     if rotated:
